@@ -28,6 +28,33 @@ LEVEL_TEXT = ('A thin claim: the writer (centre table) and the reader (index map
 LEVEL_NOTE = 'NOT decided: floor/ceil/truncation rounding at bounds and cell borders, half-resolution distance in float. Trusted: clang front end, extractor, sympy.'
 
 NS = 'romea::core::'
+TRUNC_CASE = ['nonneg']
+
+
+TRUNC = sp.Function('trunc')
+
+
+def integer_valued(e):
+    if e.is_Integer:
+        return True
+    if e.func in (sp.floor, sp.ceiling) or e.func == TRUNC:
+        return True
+    if e.is_Add or e.is_Mul:
+        return all(integer_valued(a) for a in e.args)
+    return False
+
+
+def cast_targets(body):
+    """('cast-target', sx of the cast) -> 'int' | 'fp' from the result type of every Eigen .cast<T>() call below body."""
+    import re
+    out = {}
+    for x in walk(body):
+        if x.get('k') == 'MCall' and x.get('m') == 'cast':
+            mm = re.search(r'scalar_cast_op<([^,<>]+), ([^<>]+?)>', (x.get('t') or {}).get('s', ''))
+            if mm:
+                tgt = mm.group(2).strip()
+                out[('cast-target', deep_unwrap(sx(x)))] = 'fp' if tgt in ('float', 'double', 'long double') else 'int'
+    return out
 
 
 def tosym(s, env):
@@ -54,8 +81,16 @@ def tosym(s, env):
             a = tosym(s[1], env)
             return None if a is None else sp.ceiling(a)
         if op in ('.cast',) and len(s) == 2:
-            return tosym(s[1], env)
-        if str(op).startswith('new:') and len(s) == 2:
+            a = tosym(s[1], env)
+            if a is None:
+                return None
+            target = env.get(('cast-target', s))
+            if integer_valued(a) or target == 'fp':
+                return a                      # value-preserving (integer -> integer / -> floating)
+            if target == 'int':
+                return TRUNC(a)               # floating -> integer: truncation toward zero
+            return None
+        if str(op).startswith('new:') and (len(s) == 2 or (len(s) == 3 and isinstance(s[2], tuple) and str(s[2][0]).endswith('::PrivateType'))):
             return tosym(s[1], env)
     return None
 
@@ -86,6 +121,12 @@ def check_class(fx, R, cq):
     rp = sp.Symbol('res', positive=True)
     env = {('.lower', 'extrimities'): l, ('.upper', 'extrimities'): u, 'this.cellResolution_': r, 'cellResolution': r}
     st = stmts_sx(g)
+    env.update(cast_targets(g['body']))
+    for s_ in st:
+        if s_[0] == 'decl' and s_[2] is not None and s_[1] not in env:
+            v_ = tosym(s_[2], env)
+            if v_ is not None:
+                env[s_[1]] = v_
     inits = {i.get('field'): deep_unwrap(sx(i['e'])) for i in g['inits'] if i.get('field')}
     R.check(inits.get('cellResolution_') == 'cellResolution', 'X1', cname + ':resolution', 'cellResolution_ initialised with %s' % (inits.get('cellResolution_'),), 'stores the resolution', loc, 'E-STATE')
     origin_s = next((s[1][2] for s in st if s[0] == 'expr' and isinstance(s[1], tuple) and s[1][:2] == ('=', 'this.flooredMinimalPositionAlongAxes_')), None)
@@ -212,7 +253,13 @@ def check_class(fx, R, cq):
         rep = {sp.floor(sp.simplify(lo / r)): lo / r - eps_, sp.ceiling(sp.simplify(hi / r)): hi / r + dl}
         o2 = o.subs(rep)
         N2 = N.subs(rep)
-        if o2.has(sp.floor) or o2.has(sp.ceiling) or N2.has(sp.floor) or N2.has(sp.ceiling):
+        tr = TRUNC(sp.simplify(lo / r))
+        if o2.has(tr) or N2.has(tr):
+            # truncation toward zero: floor for a non-negative quotient, ceil (x + slack) for a negative one
+            case = TRUNC_CASE[0]
+            sub = {tr: lo / r - eps_} if case == 'nonneg' else {tr: lo / r + eps_}
+            o2, N2 = o2.subs(sub), N2.subs(sub)
+        if any(e_.has(sp.floor) or e_.has(sp.ceiling) or e_.has(TRUNC) for e_ in (o2, N2)):
             return None
         up = sp.simplify(N2 - (ext_hi - o2) / r)
         low = sp.simplify((ext_lo - o2) / r)
@@ -229,6 +276,18 @@ def check_class(fx, R, cq):
         inf = a + min(0, b) + min(0, c)
         attained = (b >= 0 and c >= 0)
         return inf, attained
+    uses_trunc = origin.has(TRUNC) or count.has(TRUNC)
+    if uses_trunc:
+        TRUNC_CASE[0] = 'neg'
+        mgn = margins(l, u, l, u)
+        TRUNC_CASE[0] = 'nonneg'
+        if mgn is not None:
+            dupn, dlon = decide(mgn[0]), decide(mgn[1])
+            if dupn is not None and dlon is not None and not (dupn[0] > 0 and dlon[0] >= 0):
+                R.violated('X3', 'GridIndexMapping:interval-form:truncation', 'the first cell is derived from an integer conversion of lower/res, which truncates toward zero: for a NEGATIVE lower bound that is not a '
+                           'multiple of the resolution this is ceil, not floor, and in exact arithmetic the lower bound then has real index %s with infimum %s over the slack (upper margin %s): the lower '
+                           'bound of the extent falls outside cell 0 / nearby points are further than half a cell from their centre [%s]' % (mgn[1], dlon[0], dupn[0], cname), loc, 'E-ALG')
+                return
     mg = margins(l, u, l, u)
     if mg is None:
         R.undecided('X3', cname + ':interval-form', 'floor/ceil terms not of the form floor(l/res), ceil(u/res)')
